@@ -322,7 +322,7 @@ func (sa samAux) String() string {
 	case 'A':
 		return fmt.Sprintf("%s:%c:%c", []byte(a[:2]), a.Kind(), a.Value())
 	case 'H':
-		return fmt.Sprintf("%s:%c:%02x", []byte(a[:2]), a.Kind(), a.Value())
+		return fmt.Sprintf("%s:%c:%X", []byte(a[:2]), a.Kind(), a.Value())
 	case 'B':
 		var buf bytes.Buffer
 		fmt.Fprintf(&buf, "%s:%c:%c", []byte(a[:2]), a.Kind(), a[3])
